@@ -506,6 +506,9 @@ func (b *Buffer) deleteGlyphsInplace(filter func(*GlyphInfo) bool) {
 		j    int
 		info = b.Info
 		pos  = b.Pos
+		// the positions are only in sync with `Info` once they have been computed
+		// (see clearPositions); this function is also called before that
+		hasPos = len(b.Pos) == len(b.Info)
 	)
 	for i := range info {
 		if filter(&info[i]) {
@@ -540,12 +543,16 @@ func (b *Buffer) deleteGlyphsInplace(filter func(*GlyphInfo) bool) {
 
 		if j != i {
 			info[j] = info[i]
-			pos[j] = pos[i]
+			if hasPos {
+				pos[j] = pos[i]
+			}
 		}
 		j++
 	}
 	b.Info = b.Info[:j]
-	b.Pos = b.Pos[:j]
+	if hasPos {
+		b.Pos = b.Pos[:j]
+	}
 }
 
 // unsafeToBreak adds the flag `GlyphFlagUnsafeToBreak`
